@@ -20,47 +20,44 @@ META = {
 
 F = "src/validator/csv_validator.rs"
 
+INF = float("inf")
 CLASSES = {
-    # name: (u64 result, i64 result, f64 result, is_empty, expected kind)
-    "empty": (None, None, None, True, "text"),
-    "unsigned-integer": (("Ok", 12), ("Ok", 12), ("Ok", 12.0), False, "number:12"),
-    "unsigned-beyond-i64": (("Ok", 2**63), ("Err",), ("Ok", 9.223372036854776e18), False, "number:9223372036854775808"),
-    "negative-integer": (("Err",), ("Ok", -3), ("Ok", -3.0), False, "number:-3"),
-    "integer-beyond-i64-u64": (("Err",), ("Err",), ("Ok", 1.8446744073709552e19), False, "number:1.8446744073709552e+19"),
-    "finite-float": (("Err",), ("Err",), ("Ok", 1.5), False, "number:1.5"),
-    "inf-spelling": (("Err",), ("Err",), ("Ok", float("inf")), False, "text"),
-    "nan-spelling": (("Err",), ("Err",), ("Ok", float("nan")), False, "text"),
-    "overflowing-exponent": (("Err",), ("Err",), ("Ok", float("inf")), False, "text"),
-    "not-a-number": (("Err",), ("Err",), ("Err",), False, "text"),
+    # name: (sample text, u64 result, i64 result, f64 result, expected)   -- what Rust's str::parse yields for the sample text
+    "empty": ("", ("Err",), ("Err",), ("Err",), "text"),
+    "unsigned-integer": ("12", ("Ok", 12), ("Ok", 12), ("Ok", 12.0), "number:12"),
+    "unsigned-with-plus-sign": ("+3", ("Ok", 3), ("Ok", 3), ("Ok", 3.0), "number:3"),
+    "unsigned-beyond-i64": ("9223372036854775808", ("Ok", 2**63), ("Err",), ("Ok", 9.223372036854776e18), "number:9223372036854775808"),
+    "negative-integer": ("-3", ("Err",), ("Ok", -3), ("Ok", -3.0), "number:-3"),
+    "integer-beyond-i64-u64": ("18446744073709551616", ("Err",), ("Err",), ("Ok", 1.8446744073709552e19), "number:1.8446744073709552e+19"),
+    "finite-float": ("1.5", ("Err",), ("Err",), ("Ok", 1.5), "number:1.5"),
+    "float-leading-dot": (".5", ("Err",), ("Err",), ("Ok", 0.5), "number:0.5"),
+    "float-with-plus-sign": ("+1.5e1", ("Err",), ("Err",), ("Ok", 15.0), "number:15.0"),
+    "inf-spelling": ("inf", ("Err",), ("Err",), ("Ok", INF), "text"),
+    "nan-spelling": ("NaN", ("Err",), ("Err",), ("Ok", float("nan")), "text"),
+    "overflowing-exponent": ("1e999", ("Err",), ("Err",), ("Ok", INF), "text"),
+    "not-a-number": ("abc", ("Err",), ("Err",), ("Err",), "text"),
 }
 
 
 def r_coerce(ctx):
     rid = "C13.coerce"
-    ctx.rule(rid, "coerce_field maps the empty field and every field no parser accepts or whose f64 value is not finite to "
-                  "Value::String(field unchanged), and every other field to the number the first accepting parser (u64, i64, f64) yields", floor=9)
+    ctx.rule(rid, "coerce_field maps the empty field and every field no std parser accepts or whose f64 value is not finite to "
+                  "Value::String(field unchanged), and every other field — including spellings with a leading `+` or `.` — to the number the "
+                  "first accepting parser (u64, i64, f64) yields (abstract evaluation on one sample text per class, the parsers' outcome for "
+                  "that text scripted)", floor=12)
     fi = ctx.facts.fn(F, "coerce_field")
-    for name, (u, i, fl, empty, exp) in CLASSES.items():
-        field = ("csvfield", name)
+    for name, (text, u, i, fl, exp) in CLASSES.items():
+        field = ("str", text)
 
-        def on_call(kind, nm, node, args, recv, u=u, i=i, fl=fl, empty=empty):
-            if kind == "method" and recv == field:
-                if nm == "is_empty":
-                    return empty
-                if nm == "parse":
-                    tf = (node.get("tf") or "").replace(" ", "")
-                    r = {"::<u64>": u, "::<i64>": i, "::<f64>": fl}.get(tf)
-                    if r is None:
-                        raise Unknown("parse%s" % tf)
-                    return r if r[0] == "Ok" else ("Err", OPAQUE)
-                if nm in ("to_string", "to_owned", "into"):
-                    return ("str-of", field)
-                if nm == "trim":
-                    return ("trimmed", field)
+        def on_call(kind, nm, node, args, recv, u=u, i=i, fl=fl, field=field):
+            if kind == "method" and recv == field and nm == "parse":
+                tf = (node.get("tf") or "").replace(" ", "")
+                r = {"::<u64>": u, "::<i64>": i, "::<f64>": fl}.get(tf)
+                if r is None:
+                    raise Unknown("parse%s" % tf)
+                return r if r[0] == "Ok" else ("Err", OPAQUE)
             if kind == "macro" and nm == "json":
                 return ("json-number", args[0] if args else None)
-            if kind == "fn" and nm in ("String::new",):
-                return ("str-of", ("csvfield", "empty")) if empty else ("str", "")
             return NotImplemented
         it = Interp(env={"field": field}, on_call=on_call)
         try:
@@ -75,12 +72,15 @@ def r_coerce(ctx):
             got = "number:%r" % (v[1],)
         elif isinstance(v, tuple) and v[0] == "enum" and v[1].endswith("Value::String"):
             inner = v[2][0] if v[2] else None
-            got = "text" if inner in (("str-of", field), ("str-of", ("csvfield", "empty")), ("str", "")) else "text-altered:%r" % (inner,)
+            itext = inner[1] if isinstance(inner, tuple) and inner[:1] == ("str",) else getattr(inner, "s", None) if inner is not None else None
+            if itext is None and isinstance(inner, absint.MutList) and getattr(inner, "kind", "") == "str":
+                itext = "".join(x[1] if isinstance(x, tuple) else str(x) for x in inner)
+            got = "text" if itext == text else "text-altered:%r" % (inner,)
         else:
             got = "other:%r" % (v,)
-        ctx.site(rid, name, F, fi.line, {"class": name, "result": got, "expected": exp})
+        ctx.site(rid, name, F, fi.line, {"class": name, "sample": text, "result": got, "expected": exp})
         if got != exp:
-            ctx.violation(rid, name, F, fi.line, "coerce_field on a field of class `%s` yields %s; the draft's mapping says %s" % (name, got, exp))
+            ctx.violation(rid, name, F, fi.line, "coerce_field on a field of class `%s` (e.g. %r) yields %s; the draft's mapping says %s" % (name, text, got, exp))
 
 
 def r_header(ctx):
